@@ -19,6 +19,8 @@ From Chess3 Require Export Model.SeeStreams.
 From Chess3 Require Export Spec.SearchObs Model.Pv Model.IterDeepen.
 From Chess3 Require Export Model.Rep3Stream.
 From Chess3 Require Export Spec.RepJudge.
+From Chess3 Require Export Model.Rep3Multi.
+From Chess3 Require Export Spec.RepMultiJudge.
 From Chess3 Require Export Model.Shuffle Model.Batch Model.Chunker Spec.Perm.
 From Chess3 Require Export Model.Eval.
 From Chess3 Require Export Spec.EvalSym.
